@@ -53,6 +53,7 @@ func (r *response) Reply(v EncoderDecoder) (int, error) {
 		SetHeaderSessionID(r.header.SessionID),
 	)
 	b, err := v.MarshalBinary()
+	vhook("r.reply", r.crypter.Conn, seqNo, err)
 	if err != nil {
 		r.Errorf(r.ctx, "unable to marshal packet; %v", err)
 		return 0, err
